@@ -12,19 +12,25 @@ def hostile(ctx):
     if not ctx.need_tlc_ok(g, "RouteHostile Gen"):
         return False
     ctx.cover("hostile-gen", states=g.distinct, transitions=g.generated)
-    r = ctx.gotest("route", FILES, "^TestVerifC02Hostile$", env={"VERIF_IN": cases}, timeout=900)
-    if r.summary is None and ("panic:" in r.out or "fatal error:" in r.out):
-        ctx.violation({"sub": "hostile", "crash": True}, "the process crashed on a configuration text:\n" + r.out[-3000:],
-                      replay={"sub": "hostile-crash", "case": None})
-        return True
-    if not ctx.need_go_ok(r, "C02 hostile"):
-        return False
-    s = r.summary
-    ctx.log("hostile texts: %d scripts x 2 paths (%d accepted, %d rejected), %d panics, %.0fs" % (s["scripts"], s["accepted"], s["rejected"], s["fails"], r.wall))
-    ctx.cover("hostile", traces_validated_against_impl=s["scripts"], evaluations=2 * s["scripts"], distinct_nontrivial=s["scripts"], samples=s.get("samples") or [])
-    ctx.take_failures(r, "hostile")
-    if s["accepted"] == 0 or s["rejected"] == 0:
-        ctx.inconclusive("hostile texts: vacuous (accepted=%d rejected=%d)" % (s["accepted"], s["rejected"]))
+    # the same texts under the metrics back ends fabio can be configured with: every target of every table
+    # registers with the provider, name-based ones render a name per target (a code path of its own)
+    backends = ["", "statsd_raw", "prometheus"] + (["graphite", "label,flat"] if ctx.thorough else [])
+    for mb in backends:
+        r = ctx.gotest("route", FILES, "^TestVerifC02Hostile$", env={"VERIF_IN": cases, "VERIF_METRICS": mb}, timeout=900)
+        if r.summary is None and ("panic:" in r.out or "fatal error:" in r.out):
+            ctx.violation({"sub": "hostile", "crash": True, "metrics": mb}, "the process crashed on a configuration text (metrics.target=%s):\n" % (mb or "default") + r.out[-3000:],
+                          replay={"sub": "hostile-crash", "case": None})
+            return True
+        if not ctx.need_go_ok(r, "C02 hostile (metrics=%s)" % mb):
+            return False
+        s = r.summary
+        ctx.log("hostile texts (metrics.target=%s): %d scripts x 2 paths (%d accepted, %d rejected), %d panics, %.0fs" % (mb or "default", s["scripts"], s["accepted"], s["rejected"], s["fails"], r.wall))
+        ctx.cover("hostile", traces_validated_against_impl=s["scripts"], evaluations=2 * s["scripts"], distinct_nontrivial=s["scripts"] if not mb else 0, samples=(s.get("samples") or []) if not mb else [])
+        for f in r.of_kind("fail"):
+            f.setdefault("features", {})["metrics"] = mb
+        ctx.take_failures(r, "hostile")
+        if s["accepted"] == 0 or s["rejected"] == 0:
+            ctx.inconclusive("hostile texts: vacuous (accepted=%d rejected=%d)" % (s["accepted"], s["rejected"]))
     return True
 
 
@@ -52,6 +58,7 @@ def swap(ctx):
         if not ctx.need_go_ok(r, "C02 swap"):
             return False
         s = r.summary
+        ctx.take_failures(r, "swap")
         v = validate(ctx, s["trace"])
         if v is None:
             return False
@@ -73,7 +80,7 @@ def swap(ctx):
             v2 = validate(ctx, bad)
             if v2 is not None and v2.ok:
                 ctx.inconclusive("binding self-test (swap): a trace with a mixed answer was accepted")
-    ctx.log("swap: %d recorded runs (8 readers x 30 lookups x 5 probes, 41 installs, -race) accepted by TableSwap_Trace" % runs)
+    ctx.log("swap: %d recorded runs (8 readers x 30 lookups x 5 probes, 41 installs, 3 builders x 40 concurrent table builds, -race) accepted by TableSwap_Trace" % runs)
     return True
 
 
@@ -88,9 +95,10 @@ def replay(ctx, rp):
     if sub == "hostile" and rp["replay"].get("case"):
         one = os.path.join(ctx.tmp, "c02.replay")
         vf.write_ndjson(one, [rp["replay"]["case"]])
-        r = ctx.gotest("route", FILES, "^TestVerifC02Hostile$", env={"VERIF_IN": one}, timeout=300)
-        if ctx.need_go_ok(r, "C02 replay"):
-            ctx.cover(evaluations=1)
-            ctx.take_failures(r, "hostile")
+        for mb in ["", "statsd_raw", "prometheus"]:
+            r = ctx.gotest("route", FILES, "^TestVerifC02Hostile$", env={"VERIF_IN": one, "VERIF_METRICS": mb}, timeout=300)
+            if ctx.need_go_ok(r, "C02 replay"):
+                ctx.cover(evaluations=1)
+                ctx.take_failures(r, "hostile")
         return
     ctx.inconclusive("replay of %s: re-run the check (the schedule depends on goroutine timing)" % sub)
